@@ -15,6 +15,7 @@
 #include <stdio.h>
 #include <stdlib.h>
 #include <string.h>
+#include <sys/mman.h>
 #include <sys/prctl.h>
 #include <unistd.h>
 
@@ -41,6 +42,8 @@ static void logline(const char *path, const char *what) {
 
 int main(int argc, char **argv) {
   if (argc < 4) return 64;
+  /* a command that does not die from a polite request: only SIGKILL ends it */
+  signal(SIGTERM, SIG_IGN);
   const char *logf = argv[1];
   char *spec = strdup(argv[2]);
   FILE *f = fopen(argv[argc - 1], "rb");
@@ -82,6 +85,18 @@ int main(int argc, char **argv) {
       return 4;
     }
     if (strcmp(fault, "signal") == 0) { raise(SIGSEGV); return 70; }
+    if (strcmp(fault, "mmap") == 0 || strcmp(fault, "mmapfast") == 0) {
+      /* "mmap" gives the caller a moment to install its limits first;
+         "mmapfast" maps at once */
+      if (strcmp(fault, "mmap") == 0) usleep(250 * 1000);
+      /* exceeds a memory limit through an anonymous shared mapping (not the
+         heap); if the mapping is refused the run fails like "alloc" */
+      size_t n = (size_t)384 << 20;
+      char *p = mmap(NULL, n, PROT_READ | PROT_WRITE, MAP_SHARED | MAP_ANONYMOUS, -1, 0);
+      if (p == MAP_FAILED) return 3;
+      for (size_t i = 0; i < n; i += 4096) p[i] = 1;
+      /* fall through: behave like the predicate says */
+    }
     if (strcmp(fault, "slow") == 0) {
       /* overruns a sub-second limit, but by less than a second */
       usleep(650 * 1000);
